@@ -186,6 +186,13 @@ TIES = {
                                      "generic_sink", "generic_parse", "generic_serialize"],
                            "theorems": ["grmsg_owner", "generic_reads_written_frames", "C01_source_generic_triples", "C01_source_generic_quads",
                                         "C01_source_generic_graphs"]},
+    # clauses of C16 / C13 directly about the translated Decoder, for ANY adapter (no model in the statement, nothing assumed of the adapter)
+    "decoder_source": {"sources": ["pyjelly/parse/decode.py"], "unit": "decode", "gen": "DecodeGen", "tie": "DecoderSource", "needs": [],
+                       "needs_gen": ["lookup_dec", "options"], "props": ["C16", "C13"],
+                       "theorems": ["C16_source_datatype_while_disabled", "C16_source_datatype_zero", "C16_source_quoted_slot_missing",
+                                    "C16_source_unknown_term_kind", "C16_source_unknown_row_kind", "C16_source_unset_row",
+                                    "C16_source_repeated_without_previous", "C13_source_reader_checks_physical_type",
+                                    "C13_source_reader_checks_version"]},
     # property C05 itself, about the translated writer and reader coupled as the wire couples them (no model in the statement)
     "c05_source": {"sources": ["pyjelly/serialize/lookup.py", "pyjelly/parse/lookup.py"], "unit": "lookup_enc", "gen": "LookupEncGen", "tie": "C05Source",
                    "needs": ["lookup_enc", "lookup_dec"], "props": ["C05"], "theorems": ["C05_source_mirror_all_histories"]},
